@@ -2,8 +2,9 @@
    Only statements: each theorem is closed by [exact] of a lemma proved under theories/Bary.
    All tables (p1_coeffs, rwg_coeffs, snc_coeffs, bary_conn, dual*_dofs, ...) are BVgen.BaryTables, regenerated from
    the bempp-cl sources on every run. *)
-From Coq Require Import QArith List Arith.
-From BV Require Import Bary.Syms Bary.Model Bary.RwgModel Bary.Tables Bary.Findings.
+From Coq Require Import Reals QArith List Arith.
+From BV Require Import Bary.Syms Bary.Model Bary.RwgModel Bary.Tables Bary.RwgReal Bary.DualModel Bary.DualProofs.
+From BV Require Import Bary.FindingP1 Bary.FindingDual1 Bary.FindingDual0.
 From BVgen Require Import BaryTables.
 Import ListNotations.
 Open Scope Q_scope.
@@ -24,7 +25,7 @@ Print Assumptions C10_bary_subtriangles.
 (* ---- P1 ------------------------------------------------------------------------------------------------------
    FINDING on the unchanged tree: the shipped table is the right table shifted by one sub-triangle.
    After the repair docs/fixes/c10_p1_bary_table.diff the two theorems marked (*finding*) stop compiling and are
-   replaced by C10_p1_table / C10_p1_pointwise as given in docs/fixes/c10_props_after_fixes.diff. *)
+   replaced by C10_p1_table / C10_p1_pointwise as given in docs/fixes/c10_verif_after_p1_fix.diff. *)
 Theorem C10_p1_table_refuted : (*finding*)
   p1_table_status = false /\
   exists a j v, (a < 3)%nat /\ (j < 6)%nat /\ (v < 3)%nat /\
@@ -92,6 +93,29 @@ Proof.
 Qed.
 Print Assumptions C10_rwg_table.
 
+(* ---- RWG / SNC, for EVERY non-degenerate triangle in R^3 (Euclidean lengths as generate_rwg0_map and the Piola
+   evaluators compute them) and EVERY point: coarse function a at the point with child-local coordinates st equals
+   the combination of the three child functions with the scaled table entries rwg_T = c * outer / dof_mult *)
+Theorem C10_rwg_table_pointwise :
+  forall P0 P1 P2 : V3, intel (mk_tri P0 P1 P2) <> 0%R ->
+  forall a j, (a < 3)%nat -> (j < 6)%nat -> forall st : R2,
+    rwg_eval (mk_tri P0 P1 P2) a (sub_mapR j st) =
+    radd (rscale (rwg_T rwg_coeffs (mk_tri P0 P1 P2) a j 0) (rwg_eval (child (mk_tri P0 P1 P2) j) 0 st))
+         (radd (rscale (rwg_T rwg_coeffs (mk_tri P0 P1 P2) a j 1) (rwg_eval (child (mk_tri P0 P1 P2) j) 1 st))
+               (rscale (rwg_T rwg_coeffs (mk_tri P0 P1 P2) a j 2) (rwg_eval (child (mk_tri P0 P1 P2) j) 2 st))).
+Proof. exact (rwg_table_pointwise rwg_coeffs rwg_entry). Qed.
+Print Assumptions C10_rwg_table_pointwise.
+
+Theorem C10_snc_table_pointwise :
+  forall P0 P1 P2 : V3, intel (mk_tri P0 P1 P2) <> 0%R ->
+  forall a j, (a < 3)%nat -> (j < 6)%nat -> forall st : R2,
+    snc_eval (mk_tri P0 P1 P2) a (sub_mapR j st) =
+    radd (rscale (rwg_T snc_coeffs (mk_tri P0 P1 P2) a j 0) (snc_eval (child (mk_tri P0 P1 P2) j) 0 st))
+         (radd (rscale (rwg_T snc_coeffs (mk_tri P0 P1 P2) a j 1) (snc_eval (child (mk_tri P0 P1 P2) j) 1 st))
+               (rscale (rwg_T snc_coeffs (mk_tri P0 P1 P2) a j 2) (snc_eval (child (mk_tri P0 P1 P2) j) 2 st))).
+Proof. exact (snc_table_pointwise snc_coeffs snc_entry). Qed.
+Print Assumptions C10_snc_table_pointwise.
+
 (* ---- dual spaces: the literal index lists address the nodes they are documented to *)
 Theorem C10_dual_index_lists :
   forall k, (k < 3)%nat ->
@@ -100,6 +124,49 @@ Theorem C10_dual_index_lists :
     same_set (nth k dual1_edge_dofs []) (all_dofs_of (BMid k)) = true.
 Proof. exact (fun k H => conj (dual0_rows k H) (conj (dual1_vertex_rows k H) (dual1_edge_rows k H))). Qed.
 Print Assumptions C10_dual_index_lists.
+
+(* DUAL0, hand model of the construction loop, for every coarse P1 space (support, global2local) with faces inside
+   its support: when the support is not truncated (or the guard tests the coarse support - after the repair), the
+   entries written are EXACTLY (6*pos(face)+s, dof, 1) for (face, v) in global2local[dof] and s one of the two
+   sub-triangles listed for corner v: the indicator of the dual cell *)
+Theorem C10_dual0_cells :
+  forall (truncate : bool) (sup : list nat) (g2l : list (list (nat * nat))),
+    (dual0_guard_uses_coarse_support = true \/ truncate = false) ->
+    (forall dl f v, In dl g2l -> In (f, v) dl -> mem f sup = true) ->
+    exists l, dual0_entries truncate sup g2l = Some l /\
+      forall t, In t l <->
+        exists d dl f v fn s, nth_error g2l d = Some dl /\ In (f, v) dl /\ index_of f sup = Some fn /\
+                              In s (nth v dual0_subtris []) /\ t = ((6 * fn + s)%nat, d, 1).
+Proof.
+  exact (fun truncate sup g2l Hg Hwf =>
+           dual0_entries_exact truncate sup g2l
+             (fun dl f v Hdl Hfv => conj (Hwf dl f v Hdl Hfv) (dual0_guard_passes truncate sup f (Hwf dl f v Hdl Hfv) Hg))).
+Qed.
+Print Assumptions C10_dual0_cells.
+
+(* FINDING on the unchanged tree: with truncate_at_segment_edge=True the guard indexes the barycentric support array
+   with a coarse face number and drops the entries of faces whose index/6 is not in the segment *)
+Theorem C10_dual0_truncate_refuted : (*finding*)
+  dual0_guard_uses_coarse_support = false /\
+  exists (sup : list nat) (g2l : list (list (nat * nat))),
+    (forall dl f v, In dl g2l -> In (f, v) dl -> mem f sup = true) /\ g2l = [[(5, 0)%nat]] /\
+    dual0_entries true sup g2l = Some [].
+Proof. exact dual0_truncate_refuted. Qed.
+Print Assumptions C10_dual0_truncate_refuted.
+
+(* DUAL1, hand model of the construction loop, for every grid (any valence) and both truncation modes: every entry
+   written for the dof of coarse element E is  1 at a listed "barycentre" dof of E,  1/2 at a dof that IS the midpoint
+   of an edge shared with E,  or 1/valence(V) at a dof that IS a corner V of E, of an element of the support.
+   partial: that the entries do not overlap / are complete (so that the summed matrix takes exactly these values) is
+   covered by the correspondence check and the search, not proved. *)
+Theorem C10_dual_nodal_values_partial :
+  forall (truncate : bool) (elements element_edges edge_neighbors vertex_neighbors : list (list nat))
+         (dp0_support : list nat) (t : triple),
+    In t (dual1_entries truncate elements element_edges edge_neighbors vertex_neighbors dp0_support) ->
+    exists d E, nth_error dp0_support d = Some E /\
+      dual1_entry_kind truncate elements element_edges edge_neighbors vertex_neighbors dp0_support d E t.
+Proof. exact dual1_entries_sound. Qed.
+Print Assumptions C10_dual_nodal_values_partial.
 
 (* FINDING on the unchanged tree: the "1 at the barycentre" list of dual1 names the six edge-midpoint dofs *)
 Theorem C10_dual1_centre_refuted : (*finding*)
